@@ -8,7 +8,7 @@ temperatures with tenths in the nibbles of byte 15; byte 13 low 5 bits alternate
 filter; byte 14 display; byte 19 low 7 bits humidity; byte 21 bit7 8-degree heat.
 Reading notes (DESIGN.md 4-C11): alternate set-point = code + 12 on all 31 codes; aux heat = bit 3.
 """
-from pyvc.dsl import conforms, contract, fields, fold, implies, lemma, old, opaque
+from pyvc.dsl import conforms, contract, fields, fold, has_own, implies, lemma, old, opaque
 from contracts.frame import addck, crc8, frame_spec, wf_frame
 from msmart.device.AC.command import (CapabilitiesResponse, EnergyUsageResponse, HumidityResponse, PropertiesResponse,
                                       Response, StateResponse)
@@ -249,10 +249,13 @@ contract(CMD + "PropertiesResponse._parse",
                       "havoc": {"self._properties": "symdict:PROP_KEYS:enum:" + CMD + "PropertyId", "props": "memoryview"}}})
 
 contract(CMD + "PropertiesResponse.__init__",
-         params={"self": "obj:" + CMD + "PropertiesResponse", "payload": "memoryview"},
+         params={"self": "new:" + CMD + "PropertiesResponse", "payload": "memoryview"},
+         calls_inline=[CMD + "PropertiesResponse._parse"],
          modifies=["self.*"],
          raises={"builtins.IndexError": {}},
-         ensures={"id": "self._id == payload[0] and self._payload == payload"})
+         ensures={"id": "self._id == payload[0] and self._payload == payload",
+                  "own_dictionary": "has_own(self, '_properties')"},
+         notes="C16: every response object has its own property dictionary (two property frames of one exchange must not share one)")
 
 
 # ---- C13: an un-fixed-up single byte corruption is always rejected (checksum arithmetic) ------------------------------------
